@@ -139,8 +139,70 @@ def c05c_cut(ex, st, label, lam):
     becomes a proof obligation of its own (kind `lemma`, proved from the current path) and is then available to the
     rest of the clause.  At call sites (the clause is being assumed, not proved) nothing is evaluated."""
     from pyvc.vals import v_bool
-    if ex.frame.depth == 0 and not st.bound and isinstance(label.lit, str):
+    proving = getattr(ex, 'c05c_proving', 0) > 0 or getattr(ex, 'c05c_hint', 0) > 0
+    if proving and ex.frame.depth == 0 and not st.bound and isinstance(label.lit, str):
         f = ex.truth(st, ex.call(st, lam, [], {}, None))
         ex.ctx.add_oblig(st, 'lemma', label.lit, f)
         st.assume(f)
     return v_bool(True)
+
+
+# ------------------------------------------------------------------------------------------------ nested logit
+NEST_SUM_TEXT = ("sum_range(lambda p: ite(c05c_val(typed(av, 'dict[int, Expression]')[m.list_of_alternatives[p]]) != 0.0, "
+                 "app('numpy.exp', c05c_val(m.nest_param) * c05c_val(util[m.list_of_alternatives[p]])), 0.0), "
+                 "0, len(m.list_of_alternatives))")
+NEST_SUM_TEXT_FULL = ("sum_range(lambda p: app('numpy.exp', c05c_val(m.nest_param) * c05c_val(util[m.list_of_alternatives[p]])), "
+                      "0, len(m.list_of_alternatives))")
+
+
+@spec('c05c_nestsum')
+def c05c_nestsum(ex, st, m, util, av):
+    """DEFINITION  c05c_nestsum(m, util, av) = sum over the alternatives j of nest m (in list order, repetitions counted)
+    of  [av_j != 0] * exp(mu_m * V_j)   (all alternatives when av is None): the inner sum of the nested-logit generating
+    function, read in the ENTRY state of the function under verification.  It is an uninterpreted real function of the
+    three objects; whenever it is applied outside a binder its definition (a sum_range over the entry heap) is unfolded.  Under a
+    binder (for all nests q ...) only the function symbol appears: the core's sum_range has no sound encoding for a sum
+    whose terms depend on an enclosing bound variable."""
+    from pyvc.state import occurs
+    args = [m.t, util.t, av.t if av.t is not None else Val.none]
+    f = z3.Function('c05c_nestsum', Val, Val, Val, z3.RealSort())
+    t = f(*args)
+    res = v_real(t)
+    if st.bound:
+        return res
+    mark = ('c05c-nestsum', t.get_id())
+    if mark in st.ghost:
+        return res
+    st.ghost[mark] = True
+    saved = st.locals
+    st.locals = dict(saved)
+    st.locals.update({'m': m, 'util': util, 'av': av})
+    st.spec += 1
+    st.use_old += 1            # the definition reads the ENTRY heap: a fixed function of the three objects
+    try:
+        if av.kind == 'none':
+            d = ex.ev(st, ast.parse(NEST_SUM_TEXT_FULL, mode='eval').body)
+            st.pc.append(t == as_real(d))
+        else:
+            d1 = ex.ev(st, ast.parse(NEST_SUM_TEXT, mode='eval').body)
+            if av.kind == 'opt':
+                d2 = ex.ev(st, ast.parse(NEST_SUM_TEXT_FULL, mode='eval').body)
+                st.pc.append(t == z3.If(Val.is_none(av.t), as_real(d2), as_real(d1)))
+            else:
+                st.pc.append(t == as_real(d1))
+    finally:
+        st.use_old -= 1
+        st.spec -= 1
+        st.locals = saved
+    return res
+
+
+@spec('c05c_pos')
+def c05c_pos(ex, st, x):
+    """Position of a loop variable in the sequence being iterated, read off its symbolic term (`for m in seq` binds
+    m = seq[k]): lets the invariant of an inner loop speak about the iteration count of the enclosing loop."""
+    from pyvc.vals import v_int
+    t = x.t
+    if z3.is_app(t) and t.decl().kind() == z3.Z3_OP_SELECT and t.arg(1).sort() == z3.IntSort():
+        return v_int(t.arg(1))
+    raise Unsupported('c05c_pos: the value is not an element read from a sequence')
